@@ -12,15 +12,20 @@ def run(res, only=None):
     cases = os.path.join(wd, "programs.out")
     res.add_tlc(core.run_tlc("MC_C08", res.tier, cases, workers=8, extra_constants={"MaxLen": 2}))
     stride = "4" if res.tier == "quick" else "1"
-    core.replay_bin(res, "hid", cases, cfgs, env_extra={"HX_STRIDE": stride, "VERIF_SEED": str(res.seed)},
-                    expect_ops=["add", "cross", "transpose", "inverse", "cmpeq", "not", "select", "mat_mul_vec3a",
-                                "transform_point3a", "mul_a", "inject", "inject_m", "inject_a", "min", "quat_mul"])
+    expect = ["add", "cross", "transpose", "inverse", "cmpeq", "not", "select", "mat_mul_vec3a",
+              "transform_point3a", "mul_a", "inject", "inject_m", "inject_a", "min", "quat_mul"]
+    for cfg in cfgs:
+        tr = os.path.join(wd, f"payload.{cfg}.ndjson")
+        core.replay_bin(res, "hid", cases, [cfg], env_extra={"HX_STRIDE": stride, "VERIF_SEED": str(res.seed), "HX_PTRACE": tr}, expect_ops=expect)
+        # the decision: TLC consumes one event per (program, payload, step) and accepts iff the observation digest never depends on the payload
+        core.validate_trace(res, "Trace_C08", tr, cfg, cfg=cfg)
     res.rule = ("TLC enumerates every well-typed program of two steps over 99 operations x register choices of the typed register "
                 "machine (Vec3A, Mat3A, Affine3A, BVec3A registers, all initially injected); each program (1/4 stride in quick, all "
                 "in thorough) is executed once per hidden payload {copy of z, 0, 0.5, MAX, +-inf, qNaN, sNaN, all-ones, -0, subnormal, "
                 "+-1000} injected through from_vec4 / From<__m128> / Mat4->Affine3A / comparisons of tainted vectors; after every step "
                 "about 400 observation words (every accessor, reduction, comparison, conversion, product, Debug/Display of every "
-                "register) must be bit-identical across payloads.")
+                "register) must be bit-identical across payloads: the harness localises a difference, TLC (Trace_C08.tla) decides on the trace of "
+                "all runs (one digest per program, payload and step).")
     res.assumptions = ["the oracle is agreement between runs that differ only in hidden lanes (the property's own statement); "
                        "absolute values of the same operations are decided by C01/C03/C06/C15/C16",
                        "the lane does not exist under scalar-math; NEON/wasm32 not executable here"]
